@@ -14,6 +14,7 @@
 mod fam_buffers;
 mod fam_cycles;
 mod fam_driver;
+mod fam_emitter;
 mod fam_files;
 mod fam_options;
 mod fam_preproc;
@@ -84,6 +85,8 @@ pub fn make_family(name: &str) -> Option<Box<dyn Family>> {
         "cycles" => Some(Box::new(fam_cycles::Cycles::default())),
         "driver" => Some(Box::new(fam_driver::Driver::default())),
         "files" => Some(Box::new(fam_files::Files::default())),
+        "emitter" => Some(Box::new(fam_emitter::Emitter::default())),
+        "emitbin" => Some(Box::new(fam_emitter::EmitBin::default())),
         "wire" => Some(Box::new(fam_wire::Wire::default())),
         _ => None,
     }
